@@ -143,6 +143,8 @@ def gen_cfg(r, P, aware, now, kind=None, for_once=False):
         return c
     if r.random() < P.p_max:
         c["max"] = r.choice([1, 1, 2, 3, 7])
+        if r.random() < 0.04:
+            c["max"] = r.choice([-1, -3])       # a negative limit: no attempt is ever free, the job is born retired
     c["skip"] = r.random() < P.p_skip
     s_aw = aware if not (bad_aw and r.random() < 0.5) else (not aware)
     base = now
